@@ -56,6 +56,11 @@ pub struct Case {
     /// sample of corruption positions (selector); the thorough tier corrupts every position
     pub corrupt_sel: Vec<u16>,
     pub all_positions: bool,
+    /// only with mode Subsequent(B): the writer is first put into another signing mode (0 request,
+    /// 1 response, 2 subsequent, with this other MAC), turned into a Template, and a new Writer is
+    /// started from the template with try_from_template_as_tsig_subsequent(B)
+    #[serde(default)]
+    pub template_from: Option<(u8, Vec<u8>)>,
 }
 
 #[derive(Clone, Debug, PartialEq, Eq)]
@@ -200,6 +205,11 @@ pub fn oracle(c: &Case, st: &mut Stats) -> Verdict {
     let server_time = c.server_time & 0xffff_ffff_ffff;
     // 1. build and sign with the Writer
     let mut buf = vec![0u8; 8192];
+    let mut buf2 = vec![0u8; 8192];
+    let detour = match (&c.template_from, &c.mode) {
+        (Some((sel, a)), Mode::Subsequent(b)) => Some((*sel, a.clone(), b.clone())),
+        _ => None,
+    };
     let built = catch(|| {
         let mut w = Writer::new(&mut buf, 8192).unwrap();
         w.set_id(c.id);
@@ -220,7 +230,13 @@ pub fn oracle(c: &Case, st: &mut Stats) -> Verdict {
         if c.edns {
             w.set_edns(1232).map_err(|e| format!("{e:?}"))?;
         }
-        let mode = match &c.mode {
+        let first_mode = match &detour {
+            Some((0, _, _)) => Mode::Request,
+            Some((1, a, _)) => Mode::Response(a.clone()),
+            Some((_, a, _)) => Mode::Subsequent(a.clone()),
+            None => c.mode.clone(),
+        };
+        let mode = match &first_mode {
             Mode::Request => TsigMode::Request { algorithm: qalg, key: c.key.clone().into() },
             Mode::Response(m) => TsigMode::Response {
                 algorithm: qalg,
@@ -243,9 +259,16 @@ pub fn oracle(c: &Case, st: &mut Stats) -> Verdict {
             server_time: TimeSigned::try_from_unix_time(server_time).unwrap(),
         };
         w.set_tsig(mode, prepared).map_err(|e| format!("{e:?}"))?;
-        Ok::<_, String>(w.finish_with_mac())
+        if let Some((_, _, b)) = &detour {
+            let template = w.into_template();
+            let w2 = Writer::try_from_template_as_tsig_subsequent(&mut buf2, &template, b.clone().into()).map_err(|e| format!("{e:?}"))?;
+            let (len, mac) = w2.finish_with_mac();
+            return Ok((len, mac, true));
+        }
+        let (len, mac) = w.finish_with_mac();
+        Ok::<_, String>((len, mac, false))
     });
-    let (len, mac) = match built {
+    let (len, mac, second) = match built {
         Err(p) => fail!(panic_signature(&p), "building/signing panicked: {p}"),
         Ok(Err(e)) => {
             st.discard("message-did-not-fit");
@@ -254,7 +277,10 @@ pub fn oracle(c: &Case, st: &mut Stats) -> Verdict {
         }
         Ok(Ok(v)) => v,
     };
-    let full = buf[..len].to_vec();
+    let full = if second { buf2[..len].to_vec() } else { buf[..len].to_vec() };
+    if let Some((sel, _, _)) = &detour {
+        st.class(["subsequent-from-template-of-a-request-writer", "subsequent-from-template-of-a-response-writer", "subsequent-from-template-of-a-subsequent-writer"][(*sel as usize).min(2)]);
+    }
     st.eval();
     let d = match decode_message(&full) {
         Ok(d) => d,
@@ -436,9 +462,9 @@ fn case_strategy(all_positions: bool) -> impl Strategy<Value = Case> {
             any::<u64>(),
             prop_oneof![3 => -400i64..=400, 1 => any::<i32>().prop_map(|v| v as i64)],
         ),
-        prop::collection::vec(any::<u16>(), 24),
+        (prop::collection::vec(any::<u16>(), 24), prop::option::weighted(0.6, (0u8..3, mac()))),
     )
-        .prop_map(move |((id, flags, qname, recs, edns), (key_name, key, sha256, mode), (time, fudge, original_id, error, server_time, now_offset), corrupt_sel)| {
+        .prop_map(move |((id, flags, qname, recs, edns), (key_name, key, sha256, mode), (time, fudge, original_id, error, server_time, now_offset), (corrupt_sel, template_from))| {
             let records = recs
                 .into_iter()
                 .filter(|(_, (t, _, _), _)| *t != mr::T_OPT && *t != mr::T_TSIG)
@@ -462,6 +488,7 @@ fn case_strategy(all_positions: bool) -> impl Strategy<Value = Case> {
                 now_offset,
                 corrupt_sel,
                 all_positions,
+                template_from,
             }
         })
 }
